@@ -13,8 +13,8 @@
    k <= 8, m,n <= 12 (C16_x_power_partial), the term lists of the model builders (dense oracle only). *)
 From Coq Require Import QArith ZArith List String Bool Arith.
 Import ListNotations.
-From RV Require Import Model.Ladder Model.Pauli Model.SineDvr Gen.ShoTable
-                       Proofs.LadderProofs Proofs.PauliProofs Proofs.SineDvrProofs.
+From RV Require Import Model.Ladder Model.Pauli Model.SineDvr Model.Builders Gen.ShoTable Gen.Builders
+                       Proofs.LadderProofs Proofs.PauliProofs Proofs.SineDvrProofs Proofs.BuildersProofs.
 Close Scope Q_scope.
 
 (* ---- 1. a symbol written as a product denotes the matrix product in the written order -----------------------
@@ -185,6 +185,99 @@ Theorem C16_sinedvr_integrals_partial : forall j k, 1 <= j -> 1 <= k ->
   (j <> k -> p2_c j k == 0)%Q.
 Proof. exact sinedvr_partial. Qed.
 Print Assumptions C16_sinedvr_integrals_partial.
+
+(* ==== 9. model builders ======================================================================================
+   Gen/Builders.v is regenerated from model.py / mol.py / phonon.py on every run (tx/builders.py): the term loops of
+   TI1DModel, HolsteinModel, SpinBosonModel, heisenberg_ops, construct_j_matrix and the site lists, as Gallina
+   functions of the sizes and of named parameters (omega_g, omega_e, dis_e, elocalex, jmat ...).  Theorems hold for
+   ALL sizes and ALL rational parameter values. *)
+
+(* TI1DModel: the generated term list is, cell by cell, one copy of every local term with its dofs in that cell and
+   one copy of every non-local term with each dof in cell (i + offset) mod ncell (offsets of either sign);
+   every cell index is in range; ncell * (|local| + |nonlocal|) terms; cell i = cell 0 shifted by i (mod ncell) *)
+Theorem C16_ti1d_wrap : forall ncell local nonlocal,
+  ti1d_terms ncell local nonlocal = ti1d_spec ncell local nonlocal /\
+  (0 < ncell -> forall t, In t (ti1d_terms ncell local nonlocal) -> forall c d, In (c, d) (snd t) -> 0 <= c < ncell)%Z /\
+  List.length (ti1d_terms ncell local nonlocal) = Z.to_nat ncell * (List.length local + List.length nonlocal) /\
+  (forall i, (0 <= i < ncell)%Z -> ti1d_cell ncell i local nonlocal = map (shift_gop ncell i) (ti1d_cell ncell 0 local nonlocal)).
+Proof.
+  exact (fun n l nl => conj (ti1d_terms_spec n l nl) (conj (ti1d_in_range n l nl) (conj (ti1d_count n l nl) (fun i H => ti1d_translation n i l nl H)))).
+Qed.
+Print Assumptions C16_ti1d_wrap.
+
+(* construct_j_matrix for every size n >= 1 (incl. 1 and 2): equals the documented pattern; symmetric; zero diagonal
+   except for the single periodic site (the source writes J at (0,0) there; HolsteinModel never reads the diagonal);
+   off the diagonal: J exactly for |i-j| = 1, and for |i-j| = n-1 when periodic *)
+Theorem C16_j_matrix_spec : forall n J periodic i j, (1 <= n)%Z -> (0 <= i < n)%Z -> (0 <= j < n)%Z ->
+  (construct_j_matrix n J periodic i j == j_matrix_spec_fn n periodic J i j)%Q /\
+  (j_matrix_spec_fn n periodic J i j == j_matrix_spec_fn n periodic J j i)%Q /\
+  (j_matrix_spec_fn n periodic J i i == (if periodic && (n =? 1)%Z then J else 0))%Q /\
+  (i <> j -> j_matrix_spec_fn n periodic J i j ==
+     (if ((i - j =? 1) || (j - i =? 1) || (periodic && ((i - j =? n - 1) || (j - i =? n - 1))))%Z then J else 0))%Q.
+Proof.
+  exact (fun n J p i j Hn Hi Hj => conj (j_matrix_spec n J p i j Hn Hi Hj) (conj (j_matrix_symmetric n J p i j)
+          (conj (j_matrix_diagonal n J p i Hi) (j_matrix_pattern n J p i j Hi Hj)))).
+Qed.
+Print Assumptions C16_j_matrix_spec.
+
+(* HolsteinModel: the generated terms (with mol.e0 expanded through Mol.__init__ and Phonon.reorganization_energy)
+   equal, term by term, the documented displaced-oscillator Hamiltonian [holstein_spec]: site energy
+   elocalex + sum_l 1/2 omega_e^2 d^2 (EXCITED-state frequency), couplings J_ij, 1/2 p^2 + 1/2 omega_g^2 x^2,
+   a+a [1/2 (omega_e^2 - omega_g^2) x^2 - omega_e^2 d x]; ground-state displacement dis[0] = 0 as documented *)
+Theorem C16_holstein_terms_spec : forall P, (forall i l, dis_g P i l == 0)%Q ->
+  Forall2 term_eqv (holstein_ham P) (holstein_spec P).
+Proof. exact holstein_terms_spec. Qed.
+Print Assumptions C16_holstein_terms_spec.
+
+Theorem C16_displaced_oscillator : forall we wg d x : Q,
+  ((1 # 2) * (we * we) * ((x - d) * (x - d)) - (1 # 2) * (wg * wg) * (x * x) ==
+   (1 # 2) * (we * we - wg * wg) * (x * x) + - (we * we * d) * x + (1 # 2) * (we * we) * (d * d))%Q /\
+  (wg == we -> (1 # 2) * (we * we - wg * wg) == 0)%Q.
+Proof. exact (fun we wg d x => conj (displaced_oscillator_expansion we wg d x) (holstein_same_freq_term wg we)). Qed.
+Print Assumptions C16_displaced_oscillator.
+
+(* site orders of schemes 1-4 as documented, and: in every scheme each electronic and each vibrational dof has exactly
+   one site (same lists for all schemes) *)
+Theorem C16_holstein_site_order : forall scheme P,
+  holstein_basis scheme P = holstein_sites_spec scheme P /\
+  ((scheme <= 4)%Z -> flat_map site_elecs (holstein_basis scheme P) = zrange0 (nmol P) /\
+                      flat_map site_vibs (holstein_basis scheme P) = all_vibs P (zrange0 (nmol P))).
+Proof. exact (fun s P => conj (holstein_sites s P) (holstein_sites_dofs s P)). Qed.
+Print Assumptions C16_holstein_site_order.
+
+(* PARTIAL (scheme independence): the term list does not depend on the scheme (holstein_ham has no scheme argument:
+   the translator requires the term loops to lie outside the scheme switch), all schemes carry the same dofs
+   (C16_holstein_site_order), and the multi-electron site restricted to one electron is the product-basis hopping
+   (C16_multi_vac_restriction).  Equality of the DENSE operators on the 0/1-excitation sector is not proved: oracle. *)
+Theorem C16_holstein_scheme_independent_partial : forall s1 s2 P, (s1 <= 4)%Z -> (s2 <= 4)%Z ->
+  flat_map site_elecs (holstein_basis s1 P) = flat_map site_elecs (holstein_basis s2 P) /\
+  flat_map site_vibs (holstein_basis s1 P) = flat_map site_vibs (holstein_basis s2 P).
+Proof.
+  intros s1 s2 P H1 H2. destruct (holstein_sites_dofs s1 P H1) as [A1 B1], (holstein_sites_dofs s2 P H2) as [A2 B2].
+  split; congruence.
+Qed.
+Print Assumptions C16_holstein_scheme_independent_partial.
+
+Theorem C16_spinboson_terms_spec : forall S,
+  Forall2 term_eqv (spinboson_ham S) (spinboson_spec S) /\ spinboson_basis S = spinboson_sites_spec S.
+Proof. exact (fun S => conj (spinboson_terms_spec S) (spinboson_sites S)). Qed.
+Print Assumptions C16_spinboson_terms_spec.
+
+Theorem C16_heisenberg_terms_spec :
+  (forall nspin, heisenberg_terms nspin = heisenberg_spec nspin) /\
+  gl_add (kron2 sX sX) (kron2 sY sY) = gl_scale (gi_of 2) (gl_add (kron2 sP sM) (kron2 sM sP)).
+Proof. exact (conj heisenberg_terms_spec heisenberg_exchange). Qed.
+Print Assumptions C16_heisenberg_terms_spec.
+
+(* non-vacuity of the builder theorems: a 3-cell model with a negative offset; a Holstein parameter set with
+   different frequencies satisfies the hypothesis and produces the x^2 coupling term *)
+Example C16_builders_nonvacuous :
+  ti1d_terms 3 [(0, [0])] [(1, [(0%Z, 0); ((-1)%Z, 0)])] =
+    [(0, [(0%Z, 0)]); (1, [(0%Z, 0); (2%Z, 0)]); (0, [(1%Z, 0)]); (1, [(1%Z, 0); (0%Z, 0)]); (0, [(2%Z, 0)]); (1, [(2%Z, 0); (1%Z, 0)])] /\
+  (let P := mk_hpar 2 (fun _ => 1%Z) (fun _ => 1%Q) (fun _ _ => 1%Q) (fun _ _ => 2%Q) (fun _ _ => 0%Q) (fun _ _ => (1 # 2)%Q)
+                    (fun _ _ => 3%Z) (fun _ _ => false) (fun _ _ => (1 # 4)%Q) in
+   (forall i l, dis_g P i l == 0)%Q /\ List.length (holstein_ham P) = 12).
+Proof. split; [reflexivity|]. split; [intros; reflexivity|reflexivity]. Qed.
 
 (* ---- non-vacuity: the generated table has the 21 literal branches; x, p are genuinely of degree one with both
    ladder components, so the corner term of (1b) and the top-level defect of the commutator are non-zero ------------ *)
